@@ -346,7 +346,10 @@ end DFA
 
 /-! ## line protocol
 
-`c15 dump  <re>`                      → dump of `toNFA re` (must equal `NFA::verif_dump` of the implementation)
+`c15 dump  <src>`                     → dump of the model automaton (must equal `NFA::verif_dump` of the implementation);
+                                         `<src>` = `<re>` or `M k (L|R <re>)…` (production shape, `Wire.prodNFA`)
+`c15 dumpcmp <src> | <nfa>`           → class of the difference to the implementation's dump: `equal`,
+                                         `representation-only …` (isomorphic / bisimilar) or `different: …`
 `c15 dumpmap <k> <re>`                → dump of `(toNFA re).tagsMap (· + k)` (`tags_map(|t| t + k)`)
 `c15 match <re> | <hex> …`            → `Re.matchB` per word (`1`/`0`)
 `c15 run   <nfa> | <hex> …`           → per word the state reached by the model DFA: `dead` or
@@ -495,17 +498,35 @@ def transRow (n : NFA) (S : List Nat) : Array (Option DState) :=
       (st.1.push r, ts, r)
   (row.foldl step (Array.mkEmpty 256, [], none)).1
 
+/-- can an accepting subset state be reached from `S`?  (used only to CLASSIFY a disagreement: an
+    implementation that trims non-productive states differs in representation, not in language) -/
+def productiveLoop (d : DFA) : Nat → List DState → List DState → Bool
+  | 0, _, _ => true
+  | _ + 1, [], _ => false
+  | fuel + 1, S :: queue, seen =>
+    if seen.contains S then productiveLoop d fuel queue seen else
+    if d.isAccepting S then true else
+    let next := (transRow d.nfa S).toList.filterMap id
+    productiveLoop d fuel (queue ++ next.eraseDups) (S :: seen)
+
+def productive (d : DFA) (S : DState) : Bool := productiveLoop d 100000 [S] []
+
 structure BisimState where
   seen : Array (List DState)
   queue : List (Nat × DState × List UInt8)
   visited : Nat
+  /-- disagreements that are representation only: the implementation is dead where the model still has a
+      non-productive state -/
+  trimmed : Nat := 0
 
 /-- product exploration; `fuel` bounds the number of explored pairs -/
 def bisimLoop (d : DFA) (rows : Array Row) : Nat → BisimState → String
   | 0, _ => "fuel-exhausted"
   | fuel + 1, st =>
     match st.queue with
-    | [] => s!"ok {st.visited}"
+    | [] =>
+      if st.trimmed = 0 then s!"ok {st.visited}"
+      else s!"ok-trimmed {st.visited} representation-only: the implementation reports dead (or terminal) in {st.trimmed} place(s) where the model still has states from which nothing is accepted; same language, tags and accepting flags"
     | (i, S, w) :: queue =>
       match rows[i]? with
       | none => s!"diff {hex w.reverse} impl-state-out-of-range"
@@ -513,27 +534,90 @@ def bisimLoop (d : DFA) (rows : Array Row) : Nat → BisimState → String
         if (st.seen[i]?.getD []).contains S then bisimLoop d rows fuel { st with queue := queue } else
         let first := (st.seen[i]?.getD []).isEmpty
         let seen := st.seen.modify i (S :: ·)
-        if row.acc != d.isAccepting S then s!"diff {hex w.reverse} accepting impl={row.acc}" else
-        if row.term != d.isTerminal S then s!"diff {hex w.reverse} terminal impl={row.term}" else
-        if row.tags != d.tags S then s!"diff {hex w.reverse} tags impl={showNatList row.tags} model={showNatList (d.tags S)}" else
         let mrow := transRow d.nfa S
-        let res := (List.range 256).foldl (fun (acc : Option String × List (Nat × DState × List UInt8)) b =>
+        if row.acc != d.isAccepting S then s!"diff {hex w.reverse} accepting impl={row.acc}" else
+        let termTrim := row.term && !d.isTerminal S && (mrow.toList.filterMap id).all fun S' => !productive d S'
+        if row.term != d.isTerminal S && !termTrim then s!"diff {hex w.reverse} terminal impl={row.term}" else
+        if row.tags != d.tags S then s!"diff {hex w.reverse} tags impl={showNatList row.tags} model={showNatList (d.tags S)}" else
+        let res := (List.range 256).foldl
+          (fun (acc : Option String × List (Nat × DState × List UInt8) × Nat) b =>
           match acc.1 with
           | some _ => acc
           | none =>
             match row.next[b]?.getD none, mrow[b]?.getD none with
             | none, none => acc
-            | some j, some S' => (none, (j, S', UInt8.ofNat b :: w) :: acc.2)
+            | some j, some S' => (none, (j, S', UInt8.ofNat b :: w) :: acc.2.1, acc.2.2)
             | some _, none => (some s!"diff {hex (UInt8.ofNat b :: w).reverse} impl-steps-model-dead", acc.2)
-            | none, some _ => (some s!"diff {hex (UInt8.ofNat b :: w).reverse} impl-dead-model-steps", acc.2))
-          (none, queue)
+            | none, some S' =>
+              if productive d S' then
+                (some s!"diff {hex (UInt8.ofNat b :: w).reverse} impl-dead-model-steps", acc.2)
+              else (none, acc.2.1, acc.2.2 + 1))
+          (none, queue, 0)
         match res.1 with
         | some msg => msg
-        | none => bisimLoop d rows fuel { seen := seen, queue := res.2, visited := st.visited + (if first then 1 else 0) }
+        | none => bisimLoop d rows fuel
+            { seen := seen, queue := res.2.1, visited := st.visited + (if first then 1 else 0),
+              trimmed := st.trimmed + res.2.2 + (if termTrim then 1 else 0) }
 
 def bisim (n : NFA) (rows : Array Row) : String :=
   let d := n.compile
   bisimLoop d rows 1000000 { seen := Array.replicate rows.size [], queue := [(0, d.start, [])], visited := 0 }
+
+/-! canonical form of the reachable part: states renumbered in breadth-first order from the start state,
+    successors taken in edge order (by byte) and then ε order.  Equal canonical forms = same automaton up to a
+    renumbering of states (used only to CLASSIFY a dump mismatch as "representation only"). -/
+
+def bfsOrder (n : NFA) : Nat → List Nat → List Nat → List Nat
+  | 0, _, seen => seen.reverse
+  | _ + 1, [], seen => seen.reverse
+  | fuel + 1, q :: rest, seen =>
+    if seen.contains q then bfsOrder n fuel rest seen
+    else bfsOrder n fuel (rest ++ (edgesOf n q).map (·.2) ++ epsOf n q) (q :: seen)
+
+def canonNFA (n : NFA) : String :=
+  let fuel := 2 + n.states.length + (n.states.map fun st => st.edges.length + st.eps.length).sum
+  let order := bfsOrder n fuel [n.start] []
+  let idx := fun (q : Nat) => (order.findIdx? (· == q)).getD order.length
+  let sts := order.map fun q =>
+    ({ edges := (edgesOf n q).map fun p => (p.1, idx p.2), eps := sortDedup ((epsOf n q).map idx),
+       tag := tagOf n q } : NState)
+  let stop := if order.contains n.stop then toString (idx n.stop) else "-"
+  s!"{stop} {order.length} {";".intercalate (sts.map showState)}"
+
+/-- product exploration of the subset automata of two NFAs -/
+def bisim2Loop (a b : DFA) : Nat → List (DState × DState × List UInt8) → List (DState × DState) → String
+  | 0, _, _ => "fuel-exhausted"
+  | _ + 1, [], _ => "same"
+  | fuel + 1, (S, T, w) :: queue, seen =>
+    if seen.contains (S, T) then bisim2Loop a b fuel queue seen else
+    if a.isAccepting S != b.isAccepting T then s!"accepting differs after {hex w.reverse}" else
+    if a.isTerminal S != b.isTerminal T then s!"terminal differs after {hex w.reverse}" else
+    if a.tags S != b.tags T then s!"tags differ after {hex w.reverse}" else
+    let ra := transRow a.nfa S
+    let rb := transRow b.nfa T
+    let res := (List.range 256).foldl (fun (acc : Option String × List (DState × DState × List UInt8)) c =>
+      match acc.1 with
+      | some _ => acc
+      | none =>
+        match ra[c]?.getD none, rb[c]?.getD none with
+        | none, none => acc
+        | some S', some T' => (none, (S', T', UInt8.ofNat c :: w) :: acc.2)
+        | _, _ => (some s!"dead/alive differs after {hex (UInt8.ofNat c :: w).reverse}", acc.2))
+      (none, queue)
+    match res.1 with
+    | some msg => msg
+    | none => bisim2Loop a b fuel res.2 ((S, T) :: seen)
+
+/-- classification of a dump mismatch: what kind of difference is there between the model's automaton and
+    the one dumped from the implementation -/
+def dumpClass (model impl : NFA) : String :=
+  if showNFA model == showNFA impl then "equal"
+  else if canonNFA model == canonNFA impl then
+    "representation-only isomorphic: same automaton up to a renumbering of states (canonical breadth-first forms agree); language, tags and terminal flags unaffected"
+  else
+    match bisim2Loop model.compile impl.compile 1000000 [(model.compile.start, impl.compile.start, [])] [] with
+    | "same" => "representation-only bisimilar: different NFA, same observable DFA (accepting, terminal, tags, dead on every input)"
+    | msg => s!"different: {msg}"
 
 def splitBar (toks : List String) : List String × List String :=
   (toks.takeWhile (· ≠ "|"), (toks.dropWhile (· ≠ "|")).drop 1)
@@ -542,12 +626,43 @@ def b01 (b : Bool) : String := if b then "1" else "0"
 
 end Wire
 
+namespace Wire
+
+/-- `MatcherAutomata::new` of decoder.rs over the model: matcher `i` is `L e` (`Either::Left`:
+    `tags_map(|_| Matcher(i)).tag_stop_state(Matcher(i))`) or `R e` (`Either::Right`: `tags_map(Item)`);
+    on the wire `Matcher(i)` is `1000 + i` and `Item(t)` is `t` -/
+def prodNFA (ms : List (Bool × Re)) : NFA :=
+  NFA.choice (ms.mapIdx fun i m =>
+    if m.1 then (m.2.toNFA.tagsMap fun _ => 1000 + i).tagStop (1000 + i) else m.2.toNFA.tagsMap id)
+
+def parseProd : Nat → List String → Option (List (Bool × Re) × List String)
+  | 0, toks => some ([], toks)
+  | k + 1, side :: toks => do
+    let (e, rest) ← parseRe 10000 toks
+    let (ms, rest) ← parseProd k rest
+    pure ((side == "L", e) :: ms, rest)
+  | _ + 1, [] => none
+
+/-- an automaton source: an expression, or `M k (L|R e)₁ … (L|R e)ₖ` for the production shape -/
+def parseSrc : List String → Option (NFA × List String)
+  | "M" :: k :: toks => do
+    let (ms, rest) ← parseProd (← k.toNat?) toks
+    pure (prodNFA ms, rest)
+  | toks => (parseRe 10000 toks).map fun (e, rest) => (e.toNFA, rest)
+
+end Wire
+
 open Wire in
 def handle : List String → String
   | "dump" :: toks =>
-    match parseRe 10000 toks with
-    | some (e, []) => showNFA e.toNFA
+    match parseSrc toks with
+    | some (n, []) => showNFA n
     | _ => "bad-re"
+  | "dumpcmp" :: toks =>
+    let (l, r) := splitBar toks
+    match parseSrc l, parseNFA r with
+    | some (n, []), some (impl, []) => dumpClass n impl
+    | _, _ => "bad-request"
   | "dumpmap" :: k :: toks =>
     match parseRe 10000 toks, k.toNat? with
     | some (e, []), some k => showNFA (e.toNFA.tagsMap (· + k))
